@@ -56,6 +56,37 @@ def scenarios_for(prop, tier, rng):
         return agentgen.shape_scenarios(cases, prop), gens, {"statement_shapes": len(cases)}
     raise ToolError("no scenarios for " + prop)
 
+DATA_INVS = {"C01": "InvConverged InvReadBack InvIdempotent", "C02": "InvUpdateSafe", "C03": "InvUntouched"}
+
+def design(prop, tier):
+    """TLC design check of the implementation-shaped run model (AgentRun.tla / MCAgentRun.tla): the plan
+    computed by compare()+Differences over Junos!LoadPolicy for every input history (C01-C03), the request
+    protocol with a fault at every reply (C04).  A violation here means the model is wrong, not the code."""
+    res = []
+    if prop in DATA_INVS:
+        a6 = '{"c", "d"}' if tier == "thorough" else '{"c"}'
+        consts = f'CONSTANTS PNames = {{"p", "q"}} A4 = {{"a", "b"}} A6 = {a6} MaxRuns = 3 MaxLoads = 2 '
+        r = run_tlc("MCAgentRun", f"SPECIFICATION SpecData\n{consts} FixEmptyTerm = TRUE\nINVARIANTS {DATA_INVS[prop]}\nCHECK_DEADLOCK FALSE\n",
+                    f"{prop}-design", workers=12 if tier == "thorough" else 6, timeout=1500)
+        res.append(r)
+        if prop == "C01":
+            # the model must be able to express the defect that was repaired (name-only term for an empty family)
+            n = run_tlc("MCAgentRun", f"SPECIFICATION SpecData\n{consts} FixEmptyTerm = FALSE\nINVARIANTS InvReadBack\nCHECK_DEADLOCK FALSE\n",
+                        f"{prop}-design-asfound", workers=2)
+            if n["violated"] != "InvReadBack":
+                raise ToolError(f"AgentRun.tla no longer reproduces the repaired C01 defect (see {n['out']})")
+            n["violated"] = None; n["name"] += " (expected InvReadBack violation: seen)"
+            res.append(n)
+    if prop == "C04":
+        r = run_tlc("MCAgentRun", 'SPECIFICATION SpecProto\nCONSTANTS PNames = {"p"} A4 = {"a"} A6 = {} FixEmptyTerm = TRUE MaxRuns = 1 '
+                    f'MaxLoads = {5 if tier == "thorough" else 3}\nINVARIANTS InvCommitOnlyAfter InvSuccessOnly\nPROPERTY NoCommitAfterFailure\nCHECK_DEADLOCK FALSE\n',
+                    f"{prop}-design", workers=2)
+        res.append(r)
+    for r in res:
+        if r["violated"]:
+            raise ToolError(f"design check {r['name']} violated {r['violated']} (see {r['out']})")
+    return res
+
 LEVEL = {"C01": "model_checking", "C02": "model_checking", "C03": "model_checking", "C04": "model_checking",
          "C15": "model_checking", "C16": "model_checking"}
 
@@ -76,6 +107,7 @@ def check(prop, tier):
     build_harness(["agentrun"])
     build_repo_bins()
     rng = random.Random(seed())
+    designs = design(prop, tier)
     scenarios, gens, counts = scenarios_for(prop, tier, rng)
     trace, stats, viols = run_and_validate(prop, tier, scenarios, wd)
     bycase = {s["case"]: s for s in scenarios}
@@ -94,6 +126,8 @@ def check(prop, tier):
            "samples": [sample], "agent_runs": stats.get("runs"), "agent_runs_reporting_success": stats.get("okruns"),
            "load_configuration_requests_judged": stats.get("loads"), "commits_seen": stats.get("commits"),
            "evaluations": stats.get("runs", 0), "distinct_nontrivial": stats.get("loads", 0),
+           "design_checks": [{"name": d["name"], "module": "MCAgentRun", "generated": d["generated"], "distinct": d["distinct"],
+                              "wall_s": d["wall_s"]} for d in designs],
            "tlc_generators": [{"name": g["name"], "wall_s": g["wall_s"]} for g in gens],
            "exhaustive": tier == "thorough", "known_findings_reproduced": verdict.known_hits,
            "rule": "abstract cases enumerated by TLC (AgentGen.tla), concretised by tools/agentgen.py, executed by the unmodified "
